@@ -2434,8 +2434,13 @@ def circle_diameter(alpha1, delta1, alpha2, delta2, alpha3, delta3):
     if a >= sqrt(b * b + c * c):
         d = a
     else:
+        # Heron's formula in Kahan's arrangement (sides sorted a >= b >= c):
+        # it keeps its accuracy for needle-shaped triangles, where
+        # (b + c - a) loses the small side to rounding
+        if b < c:
+            b, c = c, b
         d = (2.0 * a * b * c) / sqrt(
-            (a + b + c) * (a + b - c) * (b + c - a) * (a + c - b)
+            (a + (b + c)) * (c - (a - b)) * (c + (a - b)) * (a + (b - c))
         )
     return Angle(d)
 
